@@ -4,15 +4,33 @@ Correspondence: the REAL acnportal Simulator (from $ACN_REPO) is driven by a scr
 the model (coq/Model/Pilots.v) is run by coqc on the same submissions and the recorded
 `event_queue.get_last_timestamp()` of every period; observables compared: the full pilot_signals
 matrix (incl. its width), _iteration, the exception class that ended run() and the pilots seen at
-every EVSE after every period.  Two more streams call Simulator._update_schedules and
-simulator._increase_width directly on prepared states (boundary widths, drained queue, malformed
-mappings).  The monitors restate C04 directly on the implementation's recorded behaviour with an
-independent Python version of pilot_spec."""
+every EVSE after every period.  Three more streams call Simulator._update_schedules and
+simulator._increase_width directly: on single prepared states (boundary widths, drained queue,
+malformed mappings), in interleaved call sequences on several live simulators (stream seq), and
+_increase_width alone.  The monitors restate C04 directly on the implementation's recorded behaviour
+with an independent Python version of pilot_spec.
+
+Scenario families of the cross-cutting checklist that are part of the quick budget (see RULE):
+object reuse (one algorithm object driving two simulations; one simulator / one network driven through
+many calls), several live simulators interleaved (nested runs; alternating direct calls), caller-owned
+arguments mutated after the call / checked untouched by the call / one dict object reused, JSON round
+trips mid-run and at the end, station ids whose lexicographic order differs from registration order
+(S-9, S-10, mixed case, numeric-looking, "" and "0"), unusual periods / voltages / max_recompute 0,
+interruption by Exception and BaseException subclasses followed by run() again (with or without a JSON
+round trip, same or fresh scheduler object), dtypes (tuples, int32 / float16 / int arrays, mixed), a second
+process with another PYTHONHASHSEED, and every entry point that reports pilots (pilot_signals,
+pilot_signals_as_df, to_json, EVSE.current_pilot, the pilot handed to EV.charge,
+Interface.last_applied_pilot_signals)."""
 import copy
 import fractions
+import json
+import os
 import random
+import subprocess
+import sys
 import time
 import warnings
+import zlib
 from datetime import datetime
 
 from harness.core import q, z, zlit, coq_list, coq_bool, coq_opt, coq_str
@@ -20,33 +38,102 @@ from harness.core import q, z, zlit, coq_list, coq_bool, coq_opt, coq_str
 PID = "C04"
 GEN_GROUPS = ["Pilots"]
 TARGETS = ["coq/Props/C04.vo", "coq/Model/Pilots.vo"]
-CASES = {"quick": 260, "thorough": 5000}
+CASES = {"quick": 240, "thorough": 4500}
 SHARD = 100
 CORR_HEADER = ("From Coq Require Import ZArith QArith List String.\n"
                "From ACN Require Import Base.Num Model.Pilots.\nImport ListNotations.\n"
                "Open Scope string_scope.\nOpen Scope Z_scope.\nOpen Scope Q_scope.\n")
 CHECK_FN = "check_c04"
-RULE = ("stream run: 3 fixed corpus scenarios (incl. the witness of the defect fixed in afd41a2), then 0-5 wide-range EVSEs registered in shuffled order, random non-overlapping sessions + Recompute "
-        "events over a horizon of 1-24 periods, max_recompute in {None,1,2,5}; at every scheduler call a scripted "
-        "submission: random subset of stations in shuffled dict order, length 1-12 / up to the horizon / beyond it / "
-        "long in the queue-draining period, empty dict, rows as int / float / numpy.float64 lists, numpy arrays or "
-        "mixed, occasionally an unknown station or ragged rows; stream upd: _update_schedules called directly on a "
-        "prepared simulator (width on both sides of iteration+length, drained or non-empty queue, well-formed / "
-        "empty / unknown-station / ragged / both); stream incw: _increase_width on random matrices with targets "
-        "around the width.  distinct = distinct (stations, events, submissions) tuples; non-trivial = at least one "
-        "non-empty submission")
+RULE = ("stream run: 3 fixed corpus scenarios (incl. the witness of the defect fixed in afd41a2), then 0-5 EVSEs "
+        "(wide range or default) registered in shuffled order under one of five naming styles (zero-padded, S-9/S-10, "
+        "mixed case, numeric-looking, falsy '' and '0'), heterogeneous voltages, period in {1,5,7,0.5,2.5}, random "
+        "non-overlapping sessions + Recompute events over a horizon of 1-30 periods, max_recompute in {None,0,1,2,3,5}; "
+        "at every scheduler call a scripted submission: random subset of stations in shuffled dict order, length 1-12 / "
+        "up to the horizon / beyond it / long in the queue-draining period / all-zero / constant, empty dict, rows as "
+        "int / float / numpy.float64 / float32 lists, tuples, numpy arrays (float64, float16, int64, int32) or mixed, "
+        "occasionally an unknown station or ragged rows (incl. length-1 rows after long ones).  Variants (fractions of the "
+        "budget): the scheduler mutates / reuses the objects it returned earlier; the scheduler raises an Exception or "
+        "BaseException subclass at some calls and run() is called again, optionally through to_json/from_json with the "
+        "same or a fresh scheduler object; one algorithm object drives two simulations one after the other; a second "
+        "simulation runs to completion inside a scheduler call of the first; a few scenarios are re-executed in a second "
+        "process with another PYTHONHASHSEED.  stream upd: _update_schedules called directly on a prepared simulator "
+        "(width on both sides of iteration+length, drained or non-empty queue, well-formed / empty / unknown-station / "
+        "ragged / both).  stream seq: 2-3 live simulators (optionally sharing one network object) driven alternately "
+        "through sequences of _update_schedules at non-monotone iterations, _increase_width, queue changes, constraint "
+        "additions, with the caller mutating / reusing its argument objects.  stream incw: _increase_width on random "
+        "matrices with targets around the width.  distinct = distinct (stations, events, submissions) tuples; "
+        "non-trivial = at least one non-empty submission")
 ASSUMPTIONS = [
-    "EVSEs accept the pilots that are sent (EVSE(max_rate=1e9, min_rate=0), non-negative pilots); EVSE acceptance is C13",
+    "EVSEs accept the pilots that are sent (EVSE(max_rate=1e9 or inf, min_rate=0), non-negative pilots); EVSE acceptance is C13",
     "the event queue enters the pilot logic only through get_last_timestamp()/empty() of each period, which the "
     "harness records from the real EventQueue and passes to the model as an input (the theorems quantify over all "
     "such values); empty() <-> get_last_timestamp() is None",
-    "values are copied, never computed: ints, floats and numpy.float64 are compared as exact rationals",
+    "values are copied, never computed: ints, floats and numpy scalars are compared as exact rationals",
     "event timestamps are >= -1 (numpy refuses a negative width in Simulator.__init__)",
+    "JSON round trips are exercised on networks with at least one station (a station-less simulator reloads with a 1-D "
+    "pilot matrix; reported, outside C04)",
 ]
 TRUSTED_EXTRA = ["numpy block assignment a[:, lo:hi] = M and np.array densification as modelled by write_block/dense "
                  "(validated by the correspondence only)"]
 F = fractions.Fraction
 BIG = 1e9
+ROOT = os.path.dirname(os.path.dirname(os.path.abspath(__file__)))
+
+
+# ---------------------------------------------------------------------------------------------
+# station names: a per-case bijection number <-> id string (the model works on the numbers)
+# ---------------------------------------------------------------------------------------------
+_NAMES = {}
+_INV = {}
+
+
+def set_names(pairs):
+    global _NAMES, _INV
+    _NAMES = {int(n): s for n, s in (pairs or [])}
+    _INV = {s: n for n, s in _NAMES.items()}
+
+
+def name_of(num):
+    return _NAMES.get(num, "PS-%03d" % num)
+
+
+def num_of(name):
+    if name in _INV:
+        return _INV[name]
+    return enc_station(name)
+
+
+def enc_station(name):
+    if name in _INV:
+        return _INV[name]
+    if not _NAMES and name.startswith("PS-") and name[3:].isdigit():
+        return int(name[3:])
+    return 100000 + zlib.crc32(name.encode()) % 800000
+
+
+def rand_names(rng, pool, style=None):
+    if style is None:
+        style = rng.choice([0, 0, 1, 1, 2, 3, 4])
+    out = []
+    for i, n in enumerate(pool):
+        if style == 0:
+            s = "PS-%03d" % n
+        elif style == 1:
+            s = "S-%d" % n                         # S-9 < S-10 numerically, S-10 < S-9 lexicographically
+        elif style == 2:
+            s = ["s-%d", "S-%d", "Ab-%d", "aB-%d"][n % 4] % n
+        elif style == 3:
+            s = "%d" % n                           # numeric-looking
+        else:
+            s = ["", "0", "None", "False"][i] if i < 4 else "st %d" % n      # falsy / odd ids
+        out.append([n, s])
+    return out
+
+
+def rand_pool(rng, n):
+    if rng.random() < 0.5:
+        return rng.sample(range(7, 14), min(n, 7))      # 9, 10, 11 ... next to each other
+    return rng.sample(range(1, 60), n)
 
 
 # ---------------------------------------------------------------------------------------------
@@ -60,14 +147,20 @@ def build_row(row):
         return [int(v) for v in vals]
     if kind == "float":
         return [float(v) for v in vals]
+    if kind == "tuple":
+        return tuple(float(v) for v in vals)
     if kind == "np64":
         return [np.float64(v) for v in vals]
     if kind == "np32":
         return [np.float32(v) for v in vals]          # vals are float32-representable (see rand_vals)
     if kind == "array":
         return np.array([float(v) for v in vals])
+    if kind == "f16array":
+        return np.array([float(v) for v in vals], dtype=np.float16)     # vals are multiples of 0.25 below 128
     if kind == "intarray":
         return np.array([int(v) for v in vals], dtype=int)
+    if kind == "int32array":
+        return np.array([int(v) for v in vals], dtype=np.int32)
     # mixed element types
     out = []
     for i, v in enumerate(vals):
@@ -75,26 +168,41 @@ def build_row(row):
     return out
 
 
-def build_sched(sub):
+def build_sched(sub, into=None):
     """sub = list of dict(station=<name>, kind, vals) in dict insertion order"""
-    d = {}
+    d = {} if into is None else into
+    d.clear()
     for row in sub:
         d[row["station"]] = build_row(row)
     return d
 
 
-def name_of(num):
-    return "PS-%03d" % num
+def snapshot(d):
+    """deep, comparable copy of a schedule mapping handed to the simulator"""
+    return [(k, type(v).__name__, [float(x) for x in v]) for k, v in d.items()]
 
 
-def num_of(name):
-    return int(name.split("-")[1])
+def scribble(d):
+    """what a caller may do with ITS objects after the call: overwrite the rows, then the mapping"""
+    import numpy as np
+    for k in list(d):
+        v = d[k]
+        try:
+            if isinstance(v, np.ndarray):
+                v[...] = 99
+            elif isinstance(v, list):
+                v[:] = [777.0] * (len(v) + 1)
+        except Exception:  # noqa
+            pass
+    d["ghost-after-the-call"] = [1, 2, 3]
 
 
 def rand_vals(rng, kind, length):
-    if kind in ("int", "intarray"):
+    if kind in ("int", "intarray", "int32array"):
         return [float(rng.choice([0, 0, 6, 8, 16, 32, rng.randint(0, 80)])) for _ in range(length)]
-    vals = [rng.choice([0.0, 6.0, 16.0, 32.0, 7.5, 12.125, round(rng.uniform(0, 64), 3), rng.uniform(0, 64)])
+    if kind == "f16array":
+        return [rng.randint(0, 256) / 4.0 for _ in range(length)]
+    vals = [rng.choice([0.0, 6.0, 16.0, 32.0, 7.5, 12.125, 0.5, round(rng.uniform(0, 64), 3), rng.uniform(0, 64)])
             for _ in range(length)]
     if kind == "np32":
         import numpy as np
@@ -102,7 +210,7 @@ def rand_vals(rng, kind, length):
     return vals
 
 
-KINDS = ["int", "float", "np64", "np32", "array", "intarray", "mix"]
+KINDS = ["int", "float", "np64", "np32", "array", "intarray", "mix", "tuple", "f16array", "int32array"]
 
 
 def rand_submission(rng, station_nums, it, width, drained, malformed=None):
@@ -131,14 +239,23 @@ def rand_submission(rng, station_nums, it, width, drained, malformed=None):
     if nums:
         k = rng.choice([len(nums), len(nums), rng.randint(1, len(nums)), 1])
         nums = nums[:k]
+    flavour = rng.random()          # all-zero and constant schedules overwrite like any other
     sub = []
     for n in nums:
         kind = rng.choice(KINDS)
-        sub.append(dict(station=name_of(n), kind=kind, vals=rand_vals(rng, kind, length)))
+        vals = rand_vals(rng, kind, length)
+        if flavour < 0.08:
+            vals = [0.0] * length
+        elif flavour < 0.16:
+            vals = [rng.choice([6.0, 16.0, 32.0])] * length
+        sub.append(dict(station=name_of(n), kind=kind, vals=vals))
     if malformed in ("unknown", "both") or (not station_nums and malformed is None and rng.random() < 0.4):
         kind = rng.choice(KINDS)
-        bad = dict(station=rng.choice(["PS-999", "ghost", name_of(max(list(station_nums) + [0]) + 1)]), kind=kind,
-                   vals=rand_vals(rng, kind, length))
+        known = {name_of(n) for n in station_nums}
+        cands = [c for c in ["PS-999", "ghost", name_of(max(list(station_nums) + [0]) + 1),
+                             (name_of(nums[0]) + " ") if nums else "x", (name_of(nums[0]).lower() + "_") if nums else "y"]
+                 if c not in known]
+        bad = dict(station=rng.choice(cands), kind=kind, vals=rand_vals(rng, kind, length))
         sub.insert(rng.randint(0, len(sub)), bad)
     if malformed in ("ragged", "both"):
         if len(sub) < 2:
@@ -150,11 +267,15 @@ def rand_submission(rng, station_nums, it, width, drained, malformed=None):
         j = rng.randrange(len(sub))
         row = sub[j]
         newlen = max(0, length + rng.choice([-1, 1, 2, -length]))
+        if length > 1 and rng.random() < 0.35:
+            newlen = 1                               # a row numpy would happily broadcast
         if newlen == length:
             newlen = length + 1
-        if row["kind"] in ("array", "intarray"):
+        if row["kind"] in ("array", "intarray", "f16array", "int32array", "tuple"):
             row["kind"] = "float"                   # keep np.array(list-of-rows) out of numpy's ragged path
         row["vals"] = rand_vals(rng, row["kind"], newlen)
+        if rng.random() < 0.5:
+            sub.append(sub.pop(j))                  # the odd row last (long rows first)
     return sub
 
 
@@ -163,40 +284,46 @@ def sub_coq(sub):
                      for r in sub])
 
 
-def enc_station(name):
-    if name.startswith("PS-"):
-        return num_of(name)
-    return 100000 + sum(ord(c) for c in name)
+# ---------------------------------------------------------------------------------------------
+# networks, events, the scripted algorithm
+# ---------------------------------------------------------------------------------------------
+def _period_record(sim, net):
+    return dict(it=int(sim._iteration), last=sim.event_queue.get_last_timestamp(),
+                empty=bool(sim.event_queue.empty()), width=int(sim.pilot_signals.shape[1]),
+                pilots=[float(e.current_pilot) for e in net._EVSEs.values()])
 
 
-# ---------------------------------------------------------------------------------------------
-# stream 1: a whole run()
-# ---------------------------------------------------------------------------------------------
-def make_network(station_nums, constraints=()):
+def make_network(station_nums, constraints=(), voltages=None, default_evse=None, plain=False, rec=None):
     """constraints: [(limit, [station nums])] -> sum of the stations' currents <= limit (often violated by the
-    scripted schedules: _update_schedules only warns about infeasible schedules, it must still apply them)"""
+    scripted schedules: _update_schedules only warns about infeasible schedules, it must still apply them).
+    plain=True: an unmodified ChargingNetwork whose post_charging_update is hooked per instance (JSON-clean)."""
     from acnportal.acnsim.network import ChargingNetwork, Current
     from acnportal.acnsim.models import EVSE
 
     class RecNet(ChargingNetwork):
         def __init__(self):
             super().__init__()
-            self.rec = []
+            self.rec = [] if rec is None else rec
             self.sim = None
 
         def post_charging_update(self):
-            self.rec.append(dict(it=int(self.sim._iteration),
-                                 last=self.sim.event_queue.get_last_timestamp(),
-                                 empty=bool(self.sim.event_queue.empty()),
-                                 width=int(self.sim.pilot_signals.shape[1]),
-                                 pilots=[float(e.current_pilot) for e in self._EVSEs.values()]))
+            self.rec.append(_period_record(self.sim, self))
 
-    net = RecNet()
-    for n in station_nums:
-        net.register_evse(EVSE(name_of(n), max_rate=BIG, min_rate=0), 240, 0)
+    net = ChargingNetwork() if plain else RecNet()
+    for i, n in enumerate(station_nums):
+        v = voltages[i] if voltages else 240
+        if default_evse and default_evse[i]:
+            evse = EVSE(name_of(n))                              # max_rate = inf
+        else:
+            evse = EVSE(name_of(n), max_rate=BIG, min_rate=0)
+        net.register_evse(evse, v, 0)
     for j, (limit, members) in enumerate(constraints):
         net.add_constraint(Current([name_of(m) for m in members]), limit, "lim%d" % j)
     return net
+
+
+def hook_plain(net, sim, rec):
+    net.post_charging_update = lambda: rec.append(_period_record(sim, net))
 
 
 def rand_constraints(rng, pool):
@@ -205,18 +332,23 @@ def rand_constraints(rng, pool):
     out = []
     for _ in range(rng.choice([1, 1, 2])):
         members = [m for m in pool if rng.random() < 0.7] or [pool[0]]
-        out.append([rng.choice([1, 10, 40, 1000]), members])
+        out.append([rng.choice([1, 10, 40.5, 1000]), members])
     return out
 
 
-def make_events(inp):
+def make_events(inp, charges=None, sim_ref=None):
     from acnportal.acnsim.events import EventQueue, PluginEvent, RecomputeEvent
     from acnportal.acnsim.models import EV, Battery
     evs = []
     events = []
     for i, s in enumerate(inp["sessions"]):
         ev = EV(s["arrival"], s["departure"], s["energy"], name_of(s["station"]), "sess-%d" % i,
-                Battery(100, 0, 100))
+                Battery(100, 0, 100), estimated_departure=s.get("est"))
+        if charges is not None:
+            def wrapped(pilot, voltage, period, ev=ev, orig=ev.charge):
+                charges.append([int(sim_ref[0]._iteration), ev.station_id, float(pilot)])
+                return orig(pilot, voltage, period)
+            ev.charge = wrapped
         evs.append(ev)
         events.append(PluginEvent(s["arrival"], ev))
     for t in inp["recomputes"]:
@@ -224,24 +356,55 @@ def make_events(inp):
     return EventQueue(events), evs
 
 
-def run_sim(inp, provider):
-    """inp: dict(stations=[nums in registration order], sessions, recomputes, max_recompute)
-    provider(call_index, it, width, drained) -> json-able submission.  Returns the recorded behaviour."""
-    from acnportal.acnsim import Simulator
+class Boom(Exception):
+    pass
+
+
+class BoomBase(BaseException):
+    pass
+
+
+EXC_KINDS = [RuntimeError, Boom, BoomBase, KeyboardInterrupt, ValueError]
+
+
+def make_alg(max_recompute):
     from acnportal.algorithms import BaseAlgorithm
 
-    calls = []
-
     class Scripted(BaseAlgorithm):
+        """the scripted scheduler; one object may be bound to several simulations one after the other"""
+
         def __init__(self, max_recompute):
             super().__init__()
             self.max_recompute = max_recompute
-            self.sim = None
+            self.bind(None, None, [], 0, {}, None)
+            self.shared_dict = {}
+            self.prev = None
+
+        def bind(self, sim, provider, calls, mutate_prev, crash, on_call):
+            self.sim, self.provider, self.calls = sim, provider, calls
+            self.mutate_prev, self.crash, self.on_call = mutate_prev, dict(crash), on_call
+            self.n_inv = 0
+            self.injected = False
+            self.arg_problem = None
 
         def schedule(self, active_sessions):
             sim = self.sim
+            inv = self.n_inv
+            self.n_inv += 1
+            if self.prev is not None:
+                d, snap = self.prev
+                if snapshot(d) != snap and self.arg_problem is None:
+                    self.arg_problem = "the simulator modified the schedule object it was handed"
+                if self.mutate_prev == 1:
+                    scribble(d)                          # the caller's objects, after the call
+                self.prev = None
+            if inv in self.crash:
+                self.injected = True
+                raise EXC_KINDS[self.crash[inv]]("injected at invocation %d" % inv)
+            if self.on_call is not None:
+                self.on_call(len(self.calls))
             it = int(sim._iteration)
-            sub = provider(len(calls), it, int(sim.pilot_signals.shape[1]), bool(sim.event_queue.empty()))
+            sub = self.provider(len(self.calls), it, int(sim.pilot_signals.shape[1]), bool(sim.event_queue.empty()))
             seen = {}
             try:
                 applied = self.interface.last_applied_pilot_signals
@@ -249,57 +412,147 @@ def run_sim(inp, provider):
                 seen = {st_of[sid]: float(v) for sid, v in applied.items() if sid in st_of}
             except Exception as e:  # noqa
                 seen = {"error": type(e).__name__}
-            calls.append(dict(it=it, last=sim.event_queue.get_last_timestamp(),
-                              empty=bool(sim.event_queue.empty()), sub=sub, seen_prev=seen))
-            return build_sched(sub)
+            self.calls.append(dict(it=it, last=sim.event_queue.get_last_timestamp(),
+                                   empty=bool(sim.event_queue.empty()), sub=sub, seen_prev=seen))
+            d = build_sched(sub, into=self.shared_dict if self.mutate_prev == 2 else None)
+            self.prev = (d, snapshot(d))
+            return d
 
-    net = make_network(inp["stations"], inp.get("constraints", ()))
-    queue, evs = make_events(inp)
+    return Scripted(max_recompute)
+
+
+def run_sim(inp, provider, alg=None, on_call=None):
+    """inp: dict(stations=[nums in registration order], names, sessions, recomputes, max_recompute, constraints,
+    period, voltages, default_evse, mutate_prev, resume=dict(crash={invocation: exc kind}, json=[bool..], attach=[..])).
+    provider(call_index, it, width, drained) -> json-able submission.  Returns the recorded behaviour."""
+    from acnportal.acnsim import Simulator
+    set_names(inp.get("names"))
+    resume = inp.get("resume") or {}
+    use_json = any(resume.get("json", []))
+    calls, rec, charges, sim_ref = [], [], [], [None]
+    net = make_network(inp["stations"], inp.get("constraints", ()), inp.get("voltages"), inp.get("default_evse"),
+                       plain=use_json, rec=rec)
+    queue, evs = make_events(inp, None if use_json else charges, sim_ref)
     last0 = queue.get_last_timestamp()
-    alg = Scripted(inp["max_recompute"])
-    sim = Simulator(net, alg, queue, datetime(2020, 1, 1), period=5, verbose=False)
-    net.sim = sim
-    alg.sim = sim
+    if alg is None:
+        alg = make_alg(inp["max_recompute"])
+    crash = {int(k): v for k, v in (resume.get("crash") or {}).items()}
+    sim = Simulator(net, alg, queue, datetime(2020, 1, 1), period=inp.get("period", 5), verbose=False)
+    sim_ref[0] = sim
+    if use_json:
+        hook_plain(net, sim, rec)
+    else:
+        net.sim = sim
+    alg.bind(sim, provider, calls, inp.get("mutate_prev", 0), crash, on_call)
     exc = None
-    try:
-        with warnings.catch_warnings():
-            warnings.simplefilter("ignore")
-            sim.run()
-    except Exception as e:  # noqa
-        exc = type(e).__name__
+    restarts = 0
+    problems = []
+    with warnings.catch_warnings():
+        warnings.simplefilter("ignore")
+        while True:
+            try:
+                alg.injected = False
+                sim.run()
+                break
+            except BaseException as e:  # noqa
+                if not alg.injected or restarts > len(crash) + 2:
+                    exc = type(e).__name__
+                    break
+                # an interruption by the scheduler: go on, possibly through a JSON round trip
+                via_json = use_json and (resume.get("json") or [False])[restarts % len(resume["json"])]
+                attach = (resume.get("attach") or ["same"])[restarts % len(resume.get("attach") or ["same"])]
+                restarts += 1
+                if via_json:
+                    try:
+                        del net.post_charging_update
+                        before = [[float(x) for x in r] for r in sim.pilot_signals]
+                        sim = Simulator.from_json(sim.to_json())
+                        net = sim.network
+                        sim_ref[0] = sim
+                        if [[float(x) for x in r] for r in sim.pilot_signals] != before:
+                            problems.append("pilot_signals changed in a to_json/from_json round trip mid-run")
+                        hook_plain(net, sim, rec)
+                        if attach == "fresh":
+                            old = alg
+                            alg = make_alg(inp["max_recompute"])
+                            alg.bind(None, provider, calls, old.mutate_prev, crash, on_call)
+                            alg.n_inv = old.n_inv
+                            alg.shared_dict = old.shared_dict
+                        alg.sim = sim
+                        sim.update_scheduler(alg)
+                    except BaseException as e2:  # noqa
+                        exc = "reload:" + type(e2).__name__
+                        break
+    if alg.arg_problem:
+        problems.append(alg.arg_problem)
+    if alg.prev is not None:
+        d, snap = alg.prev
+        if snapshot(d) != snap:
+            problems.append("the simulator modified the schedule object it was handed")
+        if inp.get("mutate_prev", 0) == 1:
+            scribble(d)
+        alg.prev = None
+    rows = [[float(x) for x in r] for r in sim.pilot_signals]
     try:
         df = sim.pilot_signals_as_df()
         df_ok = list(df.columns) == list(net.station_ids) and \
-            [[float(x) for x in df[c]] for c in df.columns] == [[float(x) for x in r] for r in sim.pilot_signals]
+            [[float(x) for x in df[c]] for c in df.columns] == rows
+        if df.size:
+            df.iloc[:, :] = 555.0                   # the caller's copy: must not write through
+        if [[float(x) for x in r] for r in sim.pilot_signals] != rows:
+            problems.append("writing to the DataFrame returned by pilot_signals_as_df() changed pilot_signals")
     except Exception:  # noqa
         df_ok = False
-    return dict(exc=exc, last0=last0, ids=[num_of(s) for s in net.station_ids], df_ok=df_ok,
-                rows=[[float(x) for x in r] for r in sim.pilot_signals],
-                wid=int(sim.pilot_signals.shape[1]), iter=int(sim._iteration),
-                periods=net.rec, calls=calls,
+    json_ok = None
+    if use_json and exc is None:
+        try:
+            del net.post_charging_update
+            sim2 = Simulator.from_json(sim.to_json())
+            json_ok = [[float(x) for x in r] for r in sim2.pilot_signals] == rows and \
+                list(sim2.network.station_ids) == list(net.station_ids) and \
+                [float(e.current_pilot) for e in sim2.network._EVSEs.values()] == \
+                [float(e.current_pilot) for e in net._EVSEs.values()]
+        except Exception:  # noqa
+            json_ok = False
+    return dict(exc=exc, last0=last0, ids=[num_of(s) for s in net.station_ids], df_ok=df_ok, json_ok=json_ok,
+                rows=rows, wid=int(sim.pilot_signals.shape[1]), iter=int(sim._iteration),
+                periods=rec, calls=calls, charges=charges, restarts=restarts, problems=problems,
                 energies=[float(ev.energy_delivered) for ev in evs])
 
 
 def rand_run_input(rng):
     n = rng.choice([0, 1, 1, 2, 2, 3, 3, 4, 5])
-    pool = rng.sample(range(1, 60), n)               # registration order != numeric order
+    pool = rand_pool(rng, n)
     horizon = rng.choice([1, 2, rng.randint(1, 24), rng.randint(4, 24), rng.randint(8, 30)])
     sessions = []
     busy = {s: 0 for s in pool}
-    for _ in range(rng.choice([0, 1, 2, 3, 4]) if n else 0):
+    for _ in range(rng.choice([0, 1, 2, 3, 4]) if pool else 0):
         s = rng.choice(pool)
         a = rng.randint(busy[s], horizon)
         if a >= horizon:
             continue
         d = rng.randint(a + 1, horizon)
         busy[s] = d
-        sessions.append(dict(station=s, arrival=a, departure=d, energy=rng.choice([1, 5, 20])))
+        sessions.append(dict(station=s, arrival=a, departure=d, energy=rng.choice([1, 5, 20, 0.75]),
+                             est=rng.choice([None, None, d, d + 2, max(a + 1, d - 1)])))
     k = rng.choice([0, 1, 2, 4]) if sessions else rng.choice([0, 1, 2, 4, 4])
     if rng.random() < 0.04:
         k = 0
     recomputes = sorted(rng.randint(0, horizon) for _ in range(k))
-    return dict(stations=pool, sessions=sessions, recomputes=recomputes,
-                max_recompute=rng.choice([None, None, 1, 2, 5]), constraints=rand_constraints(rng, pool))
+    return dict(stations=pool, names=rand_names(rng, pool), sessions=sessions, recomputes=recomputes,
+                max_recompute=rng.choice([None, None, None, 0, 1, 2, 3, 5]), constraints=rand_constraints(rng, pool),
+                period=rng.choice([5, 5, 1, 7, 0.5, 2.5]),
+                voltages=[rng.choice([120, 208, 240, 277.5]) for _ in pool],
+                default_evse=[rng.random() < 0.2 for _ in pool],
+                mutate_prev=rng.choice([0, 0, 1, 1, 2]))
+
+
+BASE_KEYS = ("stations", "names", "sessions", "recomputes", "max_recompute", "constraints", "period", "voltages",
+             "default_evse", "mutate_prev", "resume")
+
+
+def base_of(inp):
+    return {k: inp[k] for k in BASE_KEYS if k in inp}
 
 
 def trace_of(impl):
@@ -316,7 +569,8 @@ def trace_of(impl):
     return tr
 
 
-def run_case(inp, impl):
+def run_case(inp, impl, extra_input=None):
+    set_names(inp.get("names"))
     tr = trace_of(impl)
     coq = ("{| c_ids := %s; c_last0 := %s;\n   c_trace := %s;\n   i_exc := %s; i_rows := %s; i_wid := %s; i_iter := %s;\n"
            "   i_sent := %s |}") % (
@@ -335,9 +589,15 @@ def run_case(inp, impl):
             kinds.add("grow")
     tag = "run/" + ("exc" if impl["exc"] else "ok") + ("+grow" if "grow" in kinds else "") + \
         ("+drained" if "drained" in kinds else "")
-    return dict(input=dict(stream="run", **inp, script=subs), impl=impl, coq=coq, ambiguous=False, kind=tag,
+    if impl.get("restarts"):
+        tag += "+resumed" + ("-json" if any((inp.get("resume") or {}).get("json", [])) else "")
+    full = dict(stream="run", **inp, script=subs)
+    if extra_input:
+        full.update(extra_input)
+        tag += "+" + extra_input["pair"]["mode"]
+    return dict(input=full, impl=impl, coq=coq, ambiguous=False, kind=tag,
                 sig=["run", inp["stations"], inp["sessions"], inp["recomputes"], inp["max_recompute"],
-                     inp.get("constraints"),
+                     inp.get("constraints"), inp.get("names"), inp.get("resume"),
                      [[(r["station"], r["vals"]) for r in s] for s in subs]],
                 nontrivial=any(len(s) > 0 for s in subs))
 
@@ -357,7 +617,9 @@ def sublen(sub):
 def classify(sub, ids):
     if not sub:
         return "empty"
-    if any(not r["station"].startswith("PS-") or num_of(r["station"]) not in ids for r in sub):
+    if any(r["station"] not in _INV or _INV[r["station"]] not in ids for r in sub) if _NAMES else \
+            any(not r["station"].startswith("PS-") or not r["station"][3:].isdigit() or int(r["station"][3:]) not in ids
+                for r in sub):
         return "unknown"
     if len({len(r["vals"]) for r in sub}) > 1:
         return "ragged"
@@ -365,46 +627,124 @@ def classify(sub, ids):
 
 
 def _row(num, vals, kind="float"):
-    return dict(station=name_of(num), kind=kind, vals=[float(v) for v in vals])
+    return dict(station="PS-%03d" % num, kind=kind, vals=[float(v) for v in vals])
+
+
+def _names(nums):
+    return [[n, "PS-%03d" % n] for n in nums]
 
 
 # deterministic scenarios that are part of every run
 CORPUS = [
     # the defect fixed by /repo commit afd41a2: a schedule reaching beyond the allocated matrix, submitted in the
     # period that drains the event queue (get_last_timestamp() is None there)
-    dict(stations=[7], sessions=[dict(station=7, arrival=0, departure=2, energy=5)], recomputes=[],
+    dict(stations=[7], names=_names([7]), sessions=[dict(station=7, arrival=0, departure=2, energy=5)], recomputes=[],
          max_recompute=None, constraints=[],
          script=[[_row(7, [16, 16])], [_row(7, [8, 8, 8, 8, 8], "int")]]),
     # overlay: a long schedule, then a shorter one that omits a station, then an empty one
-    dict(stations=[9, 4], sessions=[dict(station=4, arrival=0, departure=6, energy=5)], recomputes=[2, 3],
-         max_recompute=None, constraints=[[10, [9, 4]]],
+    dict(stations=[9, 4], names=_names([9, 4]), sessions=[dict(station=4, arrival=0, departure=6, energy=5)],
+         recomputes=[2, 3], max_recompute=None, constraints=[[10, [9, 4]]],
          script=[[_row(4, [1, 2, 3, 4, 5, 6]), _row(9, [7, 7, 7, 7, 7, 7], "np64")], [_row(9, [30.5, 31.5], "array")],
                  [], [_row(4, [12.125])]]),
     # max_recompute = 1: a submission in every period, each one period long, stations in reverse order
-    dict(stations=[3, 2, 1], sessions=[dict(station=2, arrival=1, departure=4, energy=5)], recomputes=[],
-         max_recompute=1, constraints=[],
+    dict(stations=[3, 2, 1], names=_names([3, 2, 1]), sessions=[dict(station=2, arrival=1, departure=4, energy=5)],
+         recomputes=[], max_recompute=1, constraints=[],
          script=[[_row(1, [k]), _row(2, [k + 0.5]), _row(3, [k + 0.25], "np32")] for k in range(8)]),
+    # a pending tail survives the departure of the EV and an all-zero schedule overwrites like any other
+    dict(stations=[10, 9], names=[[10, "S-10"], [9, "S-9"]],
+         sessions=[dict(station=9, arrival=0, departure=3, energy=5), dict(station=10, arrival=1, departure=8, energy=5)],
+         recomputes=[5], max_recompute=None, constraints=[],
+         script=[[dict(station="S-9", kind="int", vals=[16.0] * 6), dict(station="S-10", kind="float", vals=[8.0] * 6)],
+                 [], [], [dict(station="S-10", kind="int", vals=[0.0, 0.0])], []]),
 ]
+
+
+def script_provider(script):
+    return lambda k, it, w, d: script[k] if k < len(script) else []
 
 
 def corpus_cases():
     out = []
     for sc in CORPUS:
         base = {k: v for k, v in sc.items() if k != "script"}
-        script = sc["script"]
-        impl = run_sim(base, lambda k, it, w, d, script=script: script[k] if k < len(script) else [])
+        impl = run_sim(base, script_provider(sc["script"]))
         c = run_case(base, impl)
         c["kind"] = "corpus/" + c["kind"]
         out.append(c)
     return out
 
 
+def rand_resume(rng, inp):
+    """interruptions: {invocation index: exception kind}, and what happens before run() is called again"""
+    k = rng.choice([1, 1, 2, 3])
+    crash = {}
+    for _ in range(k):
+        crash[str(rng.randint(0, 8))] = rng.randrange(len(EXC_KINDS))
+    json_ok = bool(inp["stations"])
+    return dict(crash=crash, json=[json_ok and rng.random() < 0.5 for _ in range(3)],
+                attach=[rng.choice(["same", "fresh"]) for _ in range(3)])
+
+
+def run_pair(first, script1, second, script2, mode, at, rng=None):
+    """two simulations and their relation: 'reuse' = ONE algorithm object drives the first and then the second;
+    'nested' = the second runs to completion inside scheduler call `at` of the first (two live simulators).
+    script None -> submissions drawn from rng.  Returns (impl1, impl2)."""
+    def prov(inp, script):
+        if script is not None:
+            return script_provider(script)
+        return lambda k, it, w, d: rand_submission(rng, inp["stations"], it, w, d)
+    if mode == "reuse":
+        alg = make_alg(first["max_recompute"])
+        impl1 = run_sim(first, prov(first, script1), alg=alg)
+        alg.max_recompute = second["max_recompute"]
+        impl2 = run_sim(second, prov(second, script2), alg=alg)
+        return impl1, impl2
+    box = {}
+
+    def on_call(k):
+        if k == at and "impl2" not in box:
+            names = (dict(_NAMES), dict(_INV))
+            box["impl2"] = run_sim(second, prov(second, script2))
+            set_names([[n, s] for n, s in names[0].items()])
+    impl1 = run_sim(first, prov(first, script1), on_call=on_call)
+    if "impl2" not in box:
+        box["impl2"] = run_sim(second, prov(second, script2))
+    return impl1, box["impl2"]
+
+
+def pair_cases(rng):
+    first, second = rand_run_input(rng), rand_run_input(rng)
+    if rng.random() < 0.5:                          # same shape, different values
+        for k in ("stations", "names", "voltages", "default_evse", "constraints"):
+            second[k] = copy.deepcopy(first[k])
+        second["sessions"] = []                     # only Recompute events drive the second one
+        if not second["recomputes"]:
+            second["recomputes"] = [rng.randint(0, 6)]
+    mode = rng.choice(["reuse", "nested"])
+    at = rng.randint(0, 3)
+    impl1, impl2 = run_pair(first, None, second, None, mode, at, rng)
+    out = []
+    for role, (inp, impl) in enumerate([(first, impl1), (second, impl2)]):
+        pair = dict(mode=mode, at=at, role=role,
+                    first=dict(first, script=[c["sub"] for c in impl1["calls"]]),
+                    second=dict(second, script=[c["sub"] for c in impl2["calls"]]))
+        out.append(run_case(inp, impl, extra_input=dict(pair=pair)))
+    return out
+
+
 def gen_run_cases(rng, n, corpus=False):
     cases = corpus_cases() if corpus else []
     while len(cases) < n:
+        if rng.random() < 0.07:
+            cases.extend(pair_cases(rng))
+            continue
         inp = rand_run_input(rng)
+        if rng.random() < 0.14:
+            inp["resume"] = rand_resume(rng, inp)
         bad_at = rng.choice([None] * 6 + [rng.randint(0, 6)])      # ~14% of the runs contain a malformed submission
         bad_kind = rng.choice(["unknown", "ragged", "ragged", "both"])
+        if inp.get("resume"):
+            bad_at = None
 
         def provider(k, it, width, drained, inp=inp, bad_at=bad_at, bad_kind=bad_kind):
             return rand_submission(rng, inp["stations"], it, width, drained,
@@ -412,15 +752,51 @@ def gen_run_cases(rng, n, corpus=False):
         impl = run_sim(inp, provider)
         c = run_case(inp, impl)
         # the same scenario with every mapping's entries in another order must give the same matrix
-        if rng.random() < 0.35 and impl["calls"]:
+        if rng.random() < 0.3 and impl["calls"] and not inp.get("resume"):
             script = [list(s) for s in c["input"]["script"]]
             for s in script:
                 rng.shuffle(s)
-            impl2 = run_sim(inp, lambda k, it, w, d, script=script: script[k] if k < len(script) else [])
+            impl2 = run_sim(inp, script_provider(script))
             c["impl"]["perm"] = dict(rows=impl2["rows"], wid=impl2["wid"], exc=impl2["exc"],
                                      sent=[p["pilots"] for p in impl2["periods"]])
         cases.append(c)
-    return cases
+    return cases[:n]
+
+
+# ---------------------------------------------------------------------------------------------
+# a second process with another hash seed
+# ---------------------------------------------------------------------------------------------
+def _child_main():
+    inputs = json.load(sys.stdin)
+    out = []
+    for inp in inputs:
+        c = rerun(inp)
+        i = c["impl"]
+        out.append(dict(rows=i["rows"], wid=i["wid"], exc=i["exc"], iter=i["iter"],
+                        sent=[p["pilots"] for p in i["periods"]]))
+    json.dump(out, sys.stdout)
+
+
+def other_hashseed(rng, cases, k=8):
+    """re-execute the first k plain run cases in a fresh interpreter with another PYTHONHASHSEED"""
+    picked = [c for c in cases if c["input"].get("stream") == "run" and "pair" not in c["input"]][:k]
+    if not picked:
+        return
+    env = dict(os.environ, PYTHONHASHSEED=str(rng.randint(1, 4000000)))
+    try:
+        p = subprocess.run([sys.executable, "-c", "from harness import c04; c04._child_main()"], cwd=ROOT, env=env,
+                           input=json.dumps([c["input"] for c in picked], default=float), text=True,
+                           stdout=subprocess.PIPE, stderr=subprocess.PIPE, timeout=300)
+        res = json.loads(p.stdout)
+    except Exception as e:  # noqa
+        for c in picked:
+            c["impl"]["hashseed"] = "the second process failed: %s" % type(e).__name__
+        return
+    for c, r in zip(picked, res):
+        i = c["impl"]
+        mine = dict(rows=i["rows"], wid=i["wid"], exc=i["exc"], iter=i["iter"], sent=[p["pilots"] for p in i["periods"]])
+        c["impl"]["hashseed"] = None if mine == r else \
+            "a second process with PYTHONHASHSEED=%s produced different pilots" % env["PYTHONHASHSEED"]
 
 
 # ---------------------------------------------------------------------------------------------
@@ -438,62 +814,86 @@ def digest(sim, evs):
                 history=None if sim.schedule_history is None else sorted(sim.schedule_history))
 
 
-def run_upd(inp):
-    """inp: dict(stations, iteration, matrix (station-major floats), width, last (int|None), plugged=[nums], sub)"""
+def prepared_sim(inp, net=None):
     import numpy as np
     from acnportal.acnsim import Simulator
     from acnportal.acnsim.events import EventQueue, RecomputeEvent
     from acnportal.acnsim.models import EV, Battery
     from acnportal.algorithms import BaseAlgorithm
-    net = make_network(inp["stations"], inp.get("constraints", ()))
+    fresh_net = net is None
+    if fresh_net:
+        net = make_network(inp["stations"], inp.get("constraints", ()), inp.get("voltages"))
     evs = []
-    for i, s in enumerate(inp["plugged"]):
-        ev = EV(0, 1000, 50, name_of(s), "sess-%d" % i, Battery(100, 10, 100))
-        net.plugin(ev)
-        evs.append(ev)
+    if fresh_net:
+        for i, s in enumerate(inp.get("plugged", [])):
+            ev = EV(0, 1000, 50, name_of(s), "sess-%d" % i, Battery(100, 10, 100))
+            net.plugin(ev)
+            evs.append(ev)
     events = [] if inp["last"] is None else [RecomputeEvent(inp["last"])] + \
         [RecomputeEvent(t) for t in inp.get("more_events", [])]
-    sim = Simulator(net, BaseAlgorithm(), EventQueue(events), datetime(2020, 1, 1), period=5, verbose=False,
-                    store_schedule_history=True)
-    net.sim = sim
+    sim = Simulator(net, BaseAlgorithm(), EventQueue(events), datetime(2020, 1, 1), period=inp.get("period", 5),
+                    verbose=False, store_schedule_history=True)
+    if fresh_net:
+        net.sim = sim
     n = len(inp["stations"])
     sim.pilot_signals = np.array(inp["matrix"], dtype=float).reshape((n, inp["width"]))
     sim.charging_rates = np.zeros((n, inp["width"]))
     sim._iteration = inp["iteration"]
+    return sim, net, evs
+
+
+def run_upd(inp):
+    """inp: dict(stations, names, iteration, matrix (station-major floats), width, last (int|None), plugged=[nums], sub)"""
+    set_names(inp.get("names"))
+    sim, net, evs = prepared_sim(inp)
     before = digest(sim, evs)
     exc = None
+    arg = build_sched(inp["sub"])
+    snap = snapshot(arg)
     try:
         with warnings.catch_warnings():
             warnings.simplefilter("ignore")
-            sim._update_schedules(build_sched(inp["sub"]))
+            sim._update_schedules(arg)
     except Exception as e:  # noqa
         exc = type(e).__name__
+    arg_untouched = snapshot(arg) == snap
     after = digest(sim, evs)
+    scribble(arg)
+    after_scribble = digest(sim, evs)
     return dict(exc=exc, ids=[num_of(s) for s in net.station_ids], before=before, after=after,
                 rows=after["pilots"], wid=int(sim.pilot_signals.shape[1]),
-                last=sim.event_queue.get_last_timestamp())
+                last=sim.event_queue.get_last_timestamp(), arg_untouched=arg_untouched,
+                scribble_harmless=after_scribble == after)
+
+
+def rand_matrix(rng, n, width):
+    return [[rng.choice([0.0, 0.0, 6.0, 16.0, round(rng.uniform(0, 64), 2)]) for _ in range(width)] for _ in range(n)]
 
 
 def rand_upd_input(rng):
     n = rng.choice([0, 1, 2, 2, 3, 4, 5])
-    pool = rng.sample(range(1, 60), n)
+    pool = rand_pool(rng, n)
+    names = rand_names(rng, pool)
+    set_names(names)
     it = rng.choice([0, 0, 1, 2, rng.randint(0, 20)])
     width = rng.choice([it, it + 1, it + 1, it + rng.randint(1, 14), it + rng.randint(1, 14),
                         max(1, it - rng.randint(1, 3))])     # width == it: nothing allocated ahead; < it: not reachable by run()
     if width == 0:
         width = 1
-    matrix = [[rng.choice([0.0, 0.0, 6.0, 16.0, round(rng.uniform(0, 64), 2)]) for _ in range(width)] for _ in pool]
+    matrix = rand_matrix(rng, len(pool), width)
     last = rng.choice([None, None, it + 1, width - 1, width + rng.randint(0, 9), rng.randint(0, 30)])
     if last is not None and last < 0:
         last = None
     mal = rng.choice([None, None, None, None, None, None, "unknown", "ragged", "ragged", "both"])
     sub = rand_submission(rng, pool, it, width, last is None, malformed=mal)
     plugged = [s for s in pool if rng.random() < 0.5]
-    return dict(stations=pool, iteration=it, matrix=matrix, width=width, last=last, plugged=plugged, sub=sub,
-                constraints=rand_constraints(rng, pool))
+    return dict(stations=pool, names=names, iteration=it, matrix=matrix, width=width, last=last, plugged=plugged, sub=sub,
+                constraints=rand_constraints(rng, pool), voltages=[rng.choice([120, 208, 240, 277.5]) for _ in pool],
+                period=rng.choice([5, 1, 7, 0.5]))
 
 
 def upd_case(inp, impl):
+    set_names(inp.get("names"))
     coq = ("{| u_ids := %s; u_last := %s; u_iter := %s; u_rows := %s; u_wid := %s;\n   u_sched := %s;\n"
            "   iu_exc := %s; iu_rows := %s; iu_wid := %s |}") % (
         coq_list([zlit(x) for x in impl["ids"]]), coq_opt(impl["last"], zlit), zlit(inp["iteration"]),
@@ -503,8 +903,161 @@ def upd_case(inp, impl):
     grow = cl == "ok" and inp["iteration"] + sublen(inp["sub"]) > inp["width"]
     tag = "upd/%s%s%s" % (cl, "+grow" if grow else "", "+drained" if inp["last"] is None else "")
     return dict(input=dict(stream="upd", **inp), impl=impl, coq=coq, ambiguous=False, kind=tag,
-                sig=["upd", inp["stations"], inp["iteration"], inp["width"], inp["last"], inp["matrix"],
+                sig=["upd", inp["stations"], inp["iteration"], inp["width"], inp["last"], inp["matrix"], inp.get("names"),
                      [(r["station"], r["vals"]) for r in inp["sub"]]], nontrivial=bool(inp["sub"]))
+
+
+# ---------------------------------------------------------------------------------------------
+# stream 4: several live simulators driven alternately through sequences of direct calls
+# ---------------------------------------------------------------------------------------------
+def rand_seq_input(rng):
+    n = rng.choice([1, 2, 2, 3, 4])
+    pool = rand_pool(rng, n)
+    names = rand_names(rng, pool)
+    set_names(names)
+    m = rng.choice([2, 2, 3])
+    sims = []
+    for _ in range(m):
+        it = rng.choice([0, 0, 1, rng.randint(0, 8)])
+        width = rng.choice([1, it + 1, it + rng.randint(1, 8)])
+        zero = rng.random() < 0.5
+        sims.append(dict(iteration=it, width=width,
+                         matrix=[[0.0] * width for _ in pool] if zero else rand_matrix(rng, len(pool), width),
+                         last=rng.choice([None, it + 2, width + 3])))
+    return dict(stations=pool, names=names, sims=sims, shared_network=rng.random() < 0.4,
+                constraints=rand_constraints(rng, pool), n_ops=rng.randint(4, 12), op_seed=rng.randint(0, 10**9))
+
+
+def run_seq(inp, ops=None):
+    """drive the simulators; ops None -> draw them (deterministically from inp['op_seed']) while running, because the
+    submissions depend on the live width.  Returns (ops, per-simulator records)."""
+    from acnportal.acnsim.events import RecomputeEvent
+    from acnportal.acnsim.network import Current
+    from acnportal.acnsim.simulator import _increase_width
+    set_names(inp.get("names"))
+    r = random.Random(inp["op_seed"])
+    sims = []
+    shared = None
+    for sp in inp["sims"]:
+        one = dict(inp, **sp, plugged=[])
+        if inp["shared_network"]:
+            sim, net, _ = prepared_sim(one, net=shared)
+            shared = net
+        else:
+            sim, net, _ = prepared_sim(one)
+        sims.append(sim)
+    recs = [dict(calls=[], log=[], problems=[]) for _ in sims]
+    held = [None] * len(sims)
+    drawn = []
+    reuse = {}
+    n_ops = len(ops) if ops is not None else inp["n_ops"]
+    with warnings.catch_warnings():
+        warnings.simplefilter("ignore")
+        for j in range(n_ops):
+            if ops is not None:
+                op = ops[j]
+            else:
+                i = r.randrange(len(sims))
+                sim = sims[i]
+                kind = r.choice(["upd", "upd", "upd", "upd", "advance", "widen", "queue", "drain", "constraint"])
+                op = dict(sim=i, kind=kind)
+                if kind == "upd":
+                    mal = r.choice([None] * 7 + ["unknown", "ragged", "both"])
+                    op["sub"] = rand_submission(r, inp["stations"], int(sim._iteration), int(sim.pilot_signals.shape[1]),
+                                                sim.event_queue.empty(), malformed=mal)
+                    op["after"] = r.choice(["nothing", "scribble", "scribble", "reuse"])
+                elif kind == "advance":
+                    op["to"] = r.choice([int(sim._iteration) + 1, int(sim._iteration) + r.randint(1, 4),
+                                         r.randint(0, int(sim._iteration) + 1)])          # also backwards
+                elif kind == "widen":
+                    op["target"] = r.choice([int(sim.pilot_signals.shape[1]) + r.randint(-2, 5), r.randint(0, 20)])
+                elif kind == "queue":
+                    op["ts"] = r.randint(0, 25)
+                elif kind == "constraint":
+                    op["limit"] = r.choice([1, 5.5, 100])
+                drawn.append(op)
+            i = op["sim"]
+            sim, rec = sims[i], recs[i]
+            if op["kind"] == "upd":
+                d = build_sched(op["sub"], into=reuse.setdefault(i, {}) if op.get("after") == "reuse" else None)
+                snap = snapshot(d)
+                others = [[[float(x) for x in row] for row in s.pilot_signals] for s in sims]
+                exc = None
+                try:
+                    sim._update_schedules(d)
+                except Exception as e:  # noqa
+                    exc = type(e).__name__
+                if snapshot(d) != snap:
+                    rec["problems"].append("call %d modified the schedule object it was handed" % j)
+                for k2, s in enumerate(sims):
+                    if k2 != i and [[float(x) for x in row] for row in s.pilot_signals] != others[k2]:
+                        rec["problems"].append("call %d on simulator %d changed the pilots of simulator %d" % (j, i, k2))
+                rec["calls"].append(dict(kind="upd", last=sim.event_queue.get_last_timestamp(), it=int(sim._iteration),
+                                         sub=op["sub"]))
+                rec["log"].append(exc)
+                if op.get("after") == "scribble":
+                    scribble(d)
+            elif op["kind"] == "advance":
+                sim._iteration = op["to"]
+            elif op["kind"] == "widen":
+                t = max(0, op["target"])
+                a = sim.pilot_signals
+                sim.pilot_signals = _increase_width(a, t)
+                rec["calls"].append(dict(kind="widen", target=t))
+                rec["log"].append(None)
+            elif op["kind"] == "queue":
+                sim.event_queue.add_event(RecomputeEvent(op["ts"]))
+            elif op["kind"] == "drain":
+                sim.event_queue.get_current_events(10 ** 9)
+            elif op["kind"] == "constraint" and inp["stations"]:
+                try:
+                    sim.network.add_constraint(Current([name_of(inp["stations"][0])]), op["limit"], "extra%d" % j)
+                except Exception as e:  # noqa
+                    rec["problems"].append("add_constraint raised %s" % type(e).__name__)
+            # a result held from an earlier moment is re-read later: it must still be what it was
+            if held[i] is not None:
+                df, vals = held[i]
+                if [[float(x) for x in df[c]] for c in df.columns] != vals:
+                    rec["problems"].append("a DataFrame returned earlier by pilot_signals_as_df() changed afterwards")
+            df = sim.pilot_signals_as_df()
+            held[i] = (df, [[float(x) for x in df[c]] for c in df.columns])
+    out = []
+    for sim, rec in zip(sims, recs):
+        rec["rows"] = [[float(x) for x in row] for row in sim.pilot_signals]
+        rec["wid"] = int(sim.pilot_signals.shape[1])
+        rec["ids"] = [num_of(s) for s in sim.network.station_ids]
+        out.append(rec)
+    return (ops if ops is not None else drawn), out
+
+
+def seq_cases(inp, ops=None):
+    ops, recs = run_seq(inp, ops)
+    set_names(inp.get("names"))
+    cases = []
+    for i, rec in enumerate(recs):
+        sp = inp["sims"][i]
+        calls = []
+        for c in rec["calls"]:
+            if c["kind"] == "upd":
+                calls.append("(QUpd %s %s %s)" % (coq_opt(c["last"], zlit), zlit(c["it"]), sub_coq(c["sub"])))
+            else:
+                calls.append("(QWiden %s)" % zlit(c["target"]))
+        coq = ("{| s_ids := %s; s_rows := %s; s_wid := %s;\n   s_calls := %s;\n   is_log := %s; is_rows := %s; is_wid := %s |}") % (
+            coq_list([zlit(x) for x in rec["ids"]]), coq_list([coq_list([q(x) for x in r]) for r in sp["matrix"]]),
+            zlit(sp["width"]), coq_list(calls), coq_list([coq_opt(e, coq_str) for e in rec["log"]]),
+            coq_list([coq_list([q(x) for x in r]) for r in rec["rows"]]), zlit(rec["wid"]))
+        cases.append(dict(input=dict(stream="seq", **inp, ops=ops, which=i), impl=rec, coq=coq, ambiguous=False,
+                          kind="seq/%d-sims%s" % (len(recs), "+shared-net" if inp["shared_network"] else ""),
+                          sig=["seq", inp["stations"], inp["names"], inp["sims"], inp["op_seed"], i],
+                          nontrivial=any(c["kind"] == "upd" and c["sub"] for c in rec["calls"])))
+    return cases
+
+
+def gen_seq_cases(rng, n):
+    out = []
+    while len(out) < n:
+        out.extend(seq_cases(rand_seq_input(rng)))
+    return out
 
 
 # ---------------------------------------------------------------------------------------------
@@ -544,7 +1097,9 @@ def incw_case(rng):
 # the harness interface
 # ---------------------------------------------------------------------------------------------
 def gen_cases(rng, n, tier):
-    return gen_run_cases(rng, n, corpus=True)
+    cases = gen_run_cases(rng, n, corpus=True)
+    other_hashseed(rng, cases)
+    return cases
 
 
 def gen_upd_cases(rng, n):
@@ -556,10 +1111,12 @@ def gen_upd_cases(rng, n):
 
 
 def extra_streams(rng, tier):
-    n_upd = 500 if tier == "quick" else 8000
+    n_upd = 400 if tier == "quick" else 7000
+    n_seq = 120 if tier == "quick" else 2000
     n_w = 150 if tier == "quick" else 2000
     hdr = CORR_HEADER
     return [("u", hdr, "check_c04u", gen_upd_cases(rng, n_upd)),
+            ("s", hdr, "check_c04s", gen_seq_cases(rng, n_seq)),
             ("w", hdr, "check_c04w", [incw_case(rng) for _ in range(n_w)])]
 
 
@@ -583,8 +1140,13 @@ def spec_value(subs, station, t):
 
 def monitor_run(case):
     impl = case["impl"]
+    set_names(case["input"].get("names"))
     ids = impl["ids"]
     calls = impl["calls"]
+    if impl.get("problems"):
+        return impl["problems"][0]
+    if impl.get("hashseed"):
+        return impl["hashseed"]
     accepted = []
     for i, c in enumerate(calls):
         cl = classify(c["sub"], ids)
@@ -601,8 +1163,9 @@ def monitor_run(case):
     bad_last = calls and classify(calls[-1]["sub"], ids) in ("unknown", "ragged")
     if impl["exc"] is not None and not bad_last:
         c = calls[-1] if calls else None
-        return "run() raised %s although every submission is well-formed (last submission at period %s, length %s, queue %s)" % (
-            impl["exc"], c and c["it"], c and sublen(c["sub"]), "drained" if c and c["empty"] else "non-empty")
+        return "run() raised %s although every submission is well-formed (last submission at period %s, length %s, queue %s%s)" % (
+            impl["exc"], c and c["it"], c and sublen(c["sub"]), "drained" if c and c["empty"] else "non-empty",
+            ", after %d interruption(s) by the scheduler" % impl["restarts"] if impl.get("restarts") else "")
     # overlay: the recorded matrix is the overlay of the accepted submissions
     for s, num in enumerate(ids):
         row = impl["rows"][s]
@@ -611,7 +1174,7 @@ def monitor_run(case):
         for t in range(impl["wid"]):
             want = spec_value(accepted, name_of(num), t)
             if row[t] != want:
-                return "pilot_signals[%s][%d] = %r, the submitted schedules say %r" % (name_of(num), t, row[t], want)
+                return "pilot_signals[%r][%d] = %r, the submitted schedules say %r" % (name_of(num), t, row[t], want)
     for t0, sub in accepted:
         if sub and ids and t0 + sublen(sub) > impl["wid"]:
             return "submission at %d of length %d reaches beyond the recorded width %d" % (t0, sublen(sub), impl["wid"])
@@ -621,10 +1184,18 @@ def monitor_run(case):
         for s, num in enumerate(ids):
             want = spec_value(upto, name_of(num), p["it"])
             if p["pilots"][s] != want:
-                return "station %s got pilot %r in period %d, the submitted schedules say %r" % (
+                return "station %r got pilot %r in period %d, the submitted schedules say %r" % (
                     name_of(num), p["pilots"][s], p["it"], want)
+    # applied: the pilot every connected EV was charged with
+    for it, station, pilot in impl.get("charges", []):
+        want = spec_value([(t0, sub) for t0, sub in accepted if t0 <= it], station, it)
+        if pilot != want:
+            return "the EV at %r was charged with pilot %r in period %d, the submitted schedules say %r" % (
+                station, pilot, it, want)
     if not impl.get("df_ok", True):
         return "pilot_signals_as_df() is not the transpose of pilot_signals with the stations as columns"
+    if impl.get("json_ok") is False:
+        return "to_json/from_json of the finished simulator does not preserve pilot_signals / the EVSE pilots"
     # what the next scheduler call is told (Interface.last_applied_pilot_signals) about period it-1
     for c in calls:
         seen = c.get("seen_prev") or {}
@@ -634,7 +1205,7 @@ def monitor_run(case):
         for station, v in seen.items():
             want = spec_value(upto, station, c["it"] - 1)
             if v != want:
-                return "scheduler at period %d was told %r was applied at %s in period %d, the submitted schedules say %r" % (
+                return "scheduler at period %d was told %r was applied at %r in period %d, the submitted schedules say %r" % (
                     c["it"], v, station, c["it"] - 1, want)
     if [p["it"] for p in impl["periods"]] != list(range(len(impl["periods"]))):
         return "periods are not consecutive"
@@ -648,9 +1219,14 @@ def monitor_run(case):
 
 def monitor_upd(case):
     inp, impl = case["input"], case["impl"]
+    set_names(inp.get("names"))
     ids = impl["ids"]
     cl = classify(inp["sub"], ids)
     b, a = impl["before"], impl["after"]
+    if not impl.get("arg_untouched", True):
+        return "_update_schedules modified the schedule object it was handed"
+    if not impl.get("scribble_harmless", True):
+        return "modifying the schedule object after the call changed the simulator's state"
     if cl == "empty":
         if impl["exc"] is not None or a != b:
             return "empty schedule changed state / raised %r" % impl["exc"]
@@ -674,11 +1250,48 @@ def monitor_upd(case):
             old = inp["matrix"][s][t] if t < w else 0.0
             want = spec_value([(it, inp["sub"])], name_of(num), t) if it <= t < it + length else old
             if impl["rows"][s][t] != want:
-                return "after the submission pilot_signals[%s][%d] = %r, expected %r" % (name_of(num), t, impl["rows"][s][t], want)
+                return "after the submission pilot_signals[%r][%d] = %r, expected %r" % (name_of(num), t, impl["rows"][s][t], want)
     rest_b = {k: v for k, v in b.items() if k != "pilots"}
     rest_a = {k: v for k, v in a.items() if k != "pilots"}
     if rest_a != rest_b:
         return "a submission changed state other than the pilot matrix: " + ", ".join(k for k in rest_a if rest_a[k] != rest_b[k])
+    return None
+
+
+def monitor_seq(case):
+    inp, rec = case["input"], case["impl"]
+    set_names(inp.get("names"))
+    if rec["problems"]:
+        return rec["problems"][0]
+    sp = inp["sims"][inp["which"]]
+    ids = rec["ids"]
+    exp = [list(r) for r in sp["matrix"]]
+    width = sp["width"]
+    for c, exc in zip(rec["calls"], rec["log"]):
+        if c["kind"] == "widen":
+            if exc is not None:
+                return "_increase_width raised %s" % exc
+            width = max(width, c["target"])
+        else:
+            cl = classify(c["sub"], ids)
+            want = {"unknown": "KeyError", "ragged": "InvalidScheduleError"}.get(cl)
+            if exc != want:
+                return "%s submission at iteration %d raised %r, expected %r" % (cl, c["it"], exc, want)
+            if cl == "ok":
+                n = sublen(c["sub"])
+                width = max(width, c["it"] + n)
+                for s, num in enumerate(ids):
+                    exp[s] += [0.0] * (width - len(exp[s]))
+                    for t in range(c["it"], c["it"] + n):
+                        exp[s][t] = spec_value([(c["it"], c["sub"])], name_of(num), t)
+    if rec["wid"] < width:
+        return "width %d after the calls, at least %d expected" % (rec["wid"], width)
+    for s, num in enumerate(ids):
+        want = exp[s] + [0.0] * (rec["wid"] - len(exp[s]))
+        if rec["rows"][s] != want:
+            t = [k for k in range(rec["wid"]) if rec["rows"][s][k] != want[k]][0]
+            return "after the call sequence pilot_signals[%r][%d] = %r, the accepted calls say %r" % (
+                name_of(num), t, rec["rows"][s][t], want[t])
     return None
 
 
@@ -704,6 +1317,8 @@ def monitor(case):
         return monitor_run(case)
     if st == "upd":
         return monitor_upd(case)
+    if st == "seq":
+        return monitor_seq(case)
     if st == "incw":
         return monitor_incw(case)
     return None
@@ -712,7 +1327,8 @@ def monitor(case):
 def search(rng, budget_s, broken):
     t0 = time.time()
     while time.time() - t0 < budget_s:
-        for c in gen_upd_cases(rng, 150) + gen_run_cases(rng, 40) + [incw_case(rng) for _ in range(40)]:
+        for c in gen_upd_cases(rng, 150) + gen_run_cases(rng, 40) + gen_seq_cases(rng, 30) + \
+                [incw_case(rng) for _ in range(40)]:
             r = monitor(c)
             if r:
                 return dict(case=shrink(c), impl=c["impl"], why=r)
@@ -723,23 +1339,31 @@ def rerun(inp):
     """re-execute a json-able case input on the current tree -> case dict"""
     st = inp["stream"]
     if st == "run":
-        script = inp["script"]
-        base = {k: inp[k] for k in ("stations", "sessions", "recomputes", "max_recompute", "constraints") if k in inp}
-        impl = run_sim(base, lambda k, it, w, d: script[k] if k < len(script) else [])
+        if "pair" in inp:
+            p = inp["pair"]
+            f, s = p["first"], p["second"]
+            impl1, impl2 = run_pair(base_of(f), f["script"], base_of(s), s["script"], p["mode"], p["at"])
+            return run_case(base_of(f), impl1) if p["role"] == 0 else run_case(base_of(s), impl2)
+        base = base_of(inp)
+        impl = run_sim(base, script_provider(inp["script"]))
         return run_case(base, impl)
     if st == "upd":
         base = {k: v for k, v in inp.items() if k != "stream"}
         return upd_case(base, run_upd(base))
+    if st == "seq":
+        base = {k: v for k, v in inp.items() if k not in ("stream", "ops", "which")}
+        return seq_cases(base, inp["ops"])[inp["which"]]
     base = dict(inp)
     impl = run_incw(base)
     return dict(input=base, impl=impl)
 
 
 def shrink(case):
-    """greedy shrinking of a failing direct-call case (fewer stations / shorter rows); run cases are kept as is"""
+    """greedy shrinking of a failing direct-call case (fewer stations / shorter rows); other cases are kept as is"""
     inp = case["input"]
     if inp.get("stream") != "upd":
         return inp
+    set_names(inp.get("names"))
     best = copy.deepcopy(inp)
     for _ in range(30):
         progressed = False
@@ -750,8 +1374,12 @@ def shrink(case):
                 j = c["stations"].index(drop)
                 c["stations"].pop(j)
                 c["matrix"].pop(j)
+                if c.get("voltages"):
+                    c["voltages"].pop(j)
                 c["plugged"] = [p for p in c["plugged"] if p != drop]
                 c["sub"] = [r for r in c["sub"] if r["station"] != name_of(drop)]
+                c["constraints"] = [[lim, [m for m in mem if m != drop]] for lim, mem in c.get("constraints", [])]
+                c["constraints"] = [x for x in c["constraints"] if x[1]]
                 cands.append(c)
         if best["plugged"]:
             c = copy.deepcopy(best)
